@@ -239,9 +239,9 @@ fn check_idempotent(st: &State, pp: &crate::rsim::PPCfg, rep: &mut WorldReport, 
 
 fn inner(world_no: u64, t: &mut Tape, rep: &mut WorldReport) {
     let pp = draw_pparams(t, false);
-    // a third of the worlds run against a compiler that remembers a body (0..4 outputs)
+    // half of the worlds run against a compiler that remembers a body (0..4 outputs)
     PRIMED_BODY.with(|b| *b.borrow_mut() = None);
-    if t.draw(3) == 2 {
+    if t.draw(2) == 1 {
         let n = t.index(5);
         prime(&pp, n);
         rep.fire("compiler-remembers-a-body");
